@@ -180,6 +180,7 @@ fn run_a(ops: &[AOp], obs: &mut Obs) -> Result<(), Violation> {
                 let certainly = |p: &Pending, fr: &BTreeSet<String>, fg: &BTreeSet<String>, locked: &BTreeSet<String>| -> bool {
                     eligible(p, fr, fg) && !p.maybe_absent && !(p.act.lock_on_active && locked.contains(&group_name(p.act.agenda_group)))
                 };
+                obs.fp_str(&format!("{:?}", got.as_ref().map(|a| (a.rule_name.clone(), a.salience, a.condition_count))));
                 match got {
                     Some(a) => {
                         returned += 1;
